@@ -534,10 +534,25 @@ func flagPlumbing(c *Ctx) *flagPlumb {
 	}
 	if fn := c.P.Func("", "attack"); fn != nil {
 		c.Saw("function " + shortFn(fn))
-		eachInstr(fn, func(i ssa.Instruction) {
+		// consumers may be called from single-site helpers of attack (newTargeter(opts, …))
+		var region []*ssa.Function
+		withInline(func() { region = inlinedRegion(c.P, fn) }, fn)
+		isRegion := map[*ssa.Function]bool{}
+		for _, g := range region {
+			isRegion[g] = true
+		}
+		eachInRegion := func(f func(ssa.Instruction)) {
+			for _, g := range region {
+				eachInstr(g, f)
+			}
+		}
+		eachInRegion(func(i ssa.Instruction) {
 			call, ok := i.(*ssa.Call)
 			if !ok {
 				return
+			}
+			if h := call.Call.StaticCallee(); h != nil && h != fn && isRegion[h] {
+				return // the helper itself is not a consumer
 			}
 			n := callName(&call.Call)
 			var fields []string
